@@ -190,19 +190,31 @@ OverflowsToInf(fmt, x) == DyCmp(DyAbs(x), DyAdd(MaxFinite(fmt), Dy(0, 1, fmt.ema
 (* ---- ieeefloat.c Double_2_ieee2 as written in the pinned tree -------------------------------------- *)
 (* Rounds to 11 significant bits first, then makes small numbers subnormal by shifting right without   *)
 (* rounding (step 3b "Mantissa >>= 1").  Exponent > 15 is refused (error), not turned into infinity.    *)
+\* the C algorithm on its own terms: 29-bit significand M (hidden bit = bit 28, our inputs have <= 30 bits: the rest of the
+\* double's fraction is kept in F as "non-zero or not"), decision bit 17 + sh, lsb 18 + sh.
+\* fixed = FALSE: sh is always 0 and small numbers are then shifted right without rounding (pinned tree);
+\* fixed = TRUE: the decision bit is moved up by the denormalisation shift before rounding (proposed fix).
 HalfCodeBits(x, fixed) ==
-  IF fixed THEN HalfBits(x)
-  ELSE IF x.m = 0 THEN 0
-  ELSE LET E0 == TopExp(x)
-           k == BitLen(x.m) - 1
-           \* 11-bit rounding of the significand 1.f
-           n0 == IF k <= 10 THEN x.m * Pow2(10 - k) ELSE RoundShift(x.m, k - 10)
-           carry == n0 = 2048
-           n == IF carry THEN 1024 ELSE n0
+  IF x.m = 0 THEN 0
+  ELSE LET k == BitLen(x.m) - 1
+           E0 == TopExp(x)
+           \* significand scaled to 29 bits; k <= 28 for the inputs used (m < 2^29); a 30th bit goes to F
+           M0 == IF k <= 28 THEN x.m * Pow2(28 - k) ELSE x.m \div 2
+           F0 == IF k <= 28 THEN 0 ELSE x.m % 2
+           sh0 == IF fixed /\ E0 < 0 - 14 THEN (0 - 14) - E0 ELSE 0
+           sh == IF sh0 > 12 THEN 12 ELSE sh0
+           dec == 131072 * Pow2(sh)                     \* 0x20000 << sh
+           lsb == 262144 * Pow2(sh)                     \* 0x40000 << sh
+           up == IF (M0 \div dec) % 2 = 1
+                 THEN (IF (M0 % dec) # 0 \/ F0 # 0 THEN TRUE ELSE (M0 \div lsb) % 2 = 1)
+                 ELSE FALSE
+           M1 == IF up THEN M0 + lsb - (M0 % lsb) ELSE M0
+           carry == M1 >= 536870912                     \* 0x20000000
+           M2 == IF carry THEN M1 \div 2 ELSE M1
            E == IF carry THEN E0 + 1 ELSE E0
-           sh == IF E < 0 - 14 THEN (0 - 14) - E ELSE 0           \* truncating denormalisation
-           nn == IF sh > 11 THEN 0 ELSE n \div Pow2(sh)
-       IN IF E > 15 THEN 0 - 1                                    \* refused
-          ELSE IF E >= 0 - 14 THEN x.s * 32768 + (E + 15) * 1024 + (n - 1024)
-          ELSE x.s * 32768 + nn
+           dsh == IF E < 0 - 14 THEN (0 - 14) - E ELSE 0    \* "while (Exponent < -15) ..." and the extra shift at -15
+           M3 == IF dsh > 29 THEN 0 ELSE M2 \div Pow2(dsh)
+       IN IF E > 15 THEN 0 - 1                              \* refused ("Overrange")
+          ELSE IF E >= 0 - 14 THEN x.s * 32768 + (E + 15) * 1024 + ((M3 \div 262144) % 1024)
+          ELSE x.s * 32768 + ((M3 \div 262144) % 1024)
 =============================================================================
